@@ -51,19 +51,30 @@ class C06(Spec):
     prop = "C06"
     coq_targets = ["Props/C06.vo"]
     prop_module = "Props.C06"
-    theorems = ['C06_constrained_reject', 'C06_nnbi_reject', 'C06_index_reject', 'C06_octetstring_size_reject', 'C06_bitstring_size_reject', 'C06_int_reject', 'C06_octets_reject', 'C06_bits_reject', 'C06_enum_reject', 'C06_choice_reject', 'C06_alphabet_reject', 'C06_string_size_reject', 'C06_list_size_reject']
+    theorems = ['C06_constrained_reject', 'C06_nnbi_reject', 'C06_index_reject', 'C06_octetstring_size_reject', 'C06_bitstring_size_reject', 'C06_int_reject', 'C06_octets_reject', 'C06_bits_reject', 'C06_enum_reject', 'C06_choice_reject', 'C06_alphabet_reject', 'C06_string_size_reject', 'C06_list_size_reject',
+                'C06_writer_never_panics', 'C06_violating_value_has_no_encoding', 'C06_reject_nested', 'C06_reject_nested_in_scope',
+                'C06_never_wrong_encoding', 'C06_no_other_value',
+                'C06_extensible_int_out_of_root_roundtrips', 'C06_extensible_octets_out_of_root_roundtrips',
+                'C06_nested_nonvacuous', 'C06_violates_tight', 'C06_kinds_ok_needed', 'C06_extensible_nonvacuous']
     builds = [("default", "dev"), ("default", "release")]
     timeout_per_chunk = 600
     xcheck_n = 60
-    level_text = ("Rejection theorems over the L1/L2 writer model (every non-extensible constraint violation yields a constraint error, "
-                  "never Ok with other bits; extensible out-of-root values use the extension form and round-trip); model tied to the crate by "
+    level_text = ("Rejection theorems over the L1/L2 writer model: every primitive writer and every top-level type answers the named constraint error "
+                  "(C06_*_reject); at EVERY nesting depth (C06_reject_nested: violates t v = some encoded position - present OPTIONAL, DEFAULT different from "
+                  "its default, list element, selected CHOICE alternative, extension additions included - breaks a non-extensible INTEGER range / SIZE / "
+                  "alphabet / index constraint) write_ty answers Err e - never Ok and never a panic (C06_writer_never_panics: no panic on any value of the "
+                  "Rust type, no Known class excluded); inside any enclosing scope never Ok (C06_reject_nested_in_scope). Not proved: WHICH error kind at "
+                  "depth (an earlier sibling may fail first for another reason); hypotheses wf_ty, wf_val (fits the Rust type only) and kinds_ok (u64 only "
+                  "with a non-negative lower bound). Never a wrong encoding = C01 round trip read for values outside the constraints "
+                  "(C06_never_wrong_encoding, C06_no_other_value); extensible INTEGER / OCTET STRING out-of-root values are written in the extension form and "
+                  "round-trip (C06_extensible_*_out_of_root_roundtrips). Model tied to the crate by "
                   "differential execution on values just outside and far outside each bound, judged by an independent sat() oracle.")
     rule = ("for random grid types (depth <= 3): one violated constraint per case, placed at a random nesting position: INTEGER lb-1 / ub+1 / "
             "type extremes, SIZE lb-1 / ub+1 / 0 / large for strings, octet/bit strings and lists, one illegal character at first/middle/last "
             "position for each restricted alphabet (boundary code points '/', ':', 0x1F, 0x7F, 0x80, a 2-byte UTF-8 char), CHOICE/ENUMERATED index "
             "outside a non-extensible root; the same for extensible constraints (must be accepted and round-trip). "
             "non-trivial = the case carries a violation; distinct = distinct case line")
-    assumptions_text = ["descriptor constants consistent with the field list"]
+    assumptions_text = ["descriptor constants consistent with the field list", "u64 is generated only for INTEGER types without a negative lower bound (kinds_ok)"]
 
     def gen(self, rng, tier):
         q = tier == "quick"
